@@ -520,6 +520,7 @@ def concatenate(arrays, axis=0, _no_check=False, align=False, **kwargs):
 
     if type(axis) is not int:
         axis = arrays[0].dims.index(axis)
+    axis = axis % arrays[0].ndim # position counted from the end if negative
     dim = arrays[0].dims[axis]
 
     # align secondary axes prior to concatenate
